@@ -9,9 +9,13 @@ Property theorems only (helper lemmas: `MesonModel/Crash/Lemmas.lean`).
   exactly when `cmd_line.txt` is torn (internal error) or `coredata.dat` is torn with no `cmd_line.txt` (clean error).
 * Per-run obligations over `Generated/CrashTraces.lean` — the effect traces recorded from the real commands on
   this very run — by kernel evaluation: at every crash point of every recorded trace the follow-up setup is
-  usable with old-or-new option values, except in the two windows proved (and confirmed on the real code) to
-  be defects: `cmd_line.txt` torn (written in place), and `--wipe` having deleted both `coredata.dat` and
-  `cmd_line.txt` before restoring the latter from its out-of-tree copy.
+  usable and every option has its old or its new value, except in the `--wipe` window proved (and confirmed on the
+  real code) to be a defect: `--wipe` deletes `coredata.dat` and `cmd_line.txt` before it has written their
+  successors (the only copy of `cmd_line.txt` lives outside the tree meanwhile, and a directory without
+  `coredata.dat` is re-configured without the machine files that `cmd_line.txt` names).  `coredata.dat` and
+  `cmd_line.txt` are never torn in any recorded trace; `coredata.dat` never disappears during
+  `--reconfigure`/`configure`.
+  (Until 550d77f `cmd_line.txt` was rewritten in place; the exclusion for a torn `cmd_line.txt` is gone.)
 -/
 import MesonModel.Crash.Lemmas
 import MesonModel.Generated.CrashTraces
@@ -65,6 +69,19 @@ theorem coredata_save_never_tears_coredata (fs : FS α) (c : α) (h : fs pCoreda
   intro s hs
   rcases coredata_save_safe fs c s hs with h' | h' <;> simp [h', h]
 
+/-- `_write_config_atomically` (cmd_line.txt~ + fsync + replace): `cmd_line.txt` is old or new at every crash point -/
+theorem cmdline_save_safe (fs : FS α) (c : α) :
+    ∀ s ∈ crashStates fs (cmdlineSave c), s pCmdline = fs pCmdline ∨ s pCmdline = .ok c :=
+  atomic_replace_safe fs pCmdlineTmp pCmdline c (by decide)
+
+/-- … and it never touches `coredata.dat`: from a readable directory the follow-up setup stays usable throughout -/
+theorem cmdline_save_recoverable (fs : FS α) (c : α) (h0 : fs pCoredata ≠ .torn) (h1 : fs pCmdline ≠ .torn) :
+    ∀ s ∈ crashStates fs (cmdlineSave c), ∃ src, recover s = .usable src := by
+  intro s hs
+  apply recover_usable_of_not_torn
+  · rw [atomic_replace_frame fs pCmdlineTmp pCmdline pCoredata c (by decide) (by decide) s hs]; exact h0
+  · rcases cmdline_save_safe fs c s hs with h | h <;> simp [h, h1]
+
 /-- an in-place write (`open(p,'w')`; dump; close) has a crash point that leaves the file torn -/
 theorem in_place_write_unsafe (fs : FS α) (p : Path) (c : α) :
     ∃ s ∈ crashStates fs (inPlaceWrite p c), s p = .torn := by
@@ -87,6 +104,12 @@ theorem never_torn_sound (p : Path) (fs : FS α) (t : List (Effect α))
     (hc : neverTornCheck p fs t = true) (h0 : fs p ≠ .torn) :
     ∀ s ∈ crashStates fs t, s p ≠ .torn :=
   neverTornCheck_sound p fs t hc h0
+
+/-- a trace that never unlinks `p` nor renames it away leaves `p` in existence at every crash point -/
+theorem always_present_sound (p : Path) (fs : FS α) (t : List (Effect α))
+    (hc : alwaysPresentCheck p t = true) (h0 : fs p ≠ .absent) :
+    ∀ s ∈ crashStates fs t, s p ≠ .absent :=
+  alwaysPresentCheck_sound p fs t hc h0
 
 /-- the kill points the harness enumerates (`crashAt`, by index) are crash states of the theorems -/
 theorem crash_points_covered (fs : FS α) (t : List (Effect α)) (k : Nat) (torn : Bool) :
@@ -124,11 +147,12 @@ theorem disciplined_trace_recoverable (fs : FS α) (t : List (Effect α))
 /-- a configured directory: both state files hold their pre-command content -/
 def configured : FS Gen := FS.ofList [(pCoredata, .ok .old), (pCmdline, .ok .old), (pPrivate, .dir)]
 
-/-- `update_cmd_line_file` / `write_cmd_line_file` rewrite `cmd_line.txt` in place: there is a crash point after
-    which the follow-up setup dies with a traceback (F-CRASH-CMDLINE) -/
-theorem cmdline_in_place_counterexample :
-    ∃ s ∈ crashStates configured (inPlaceWrite pCmdline Gen.new), recover s = .internalError := by
-  decide
+/-- why `cmd_line.txt` must not be written in place (as it was before 550d77f): any in-place writer of it, from any
+    directory, has a crash point after which the follow-up setup dies with a traceback -/
+theorem in_place_cmdline_unrecoverable (fs : FS α) (c : α) :
+    ∃ s ∈ crashStates fs (inPlaceWrite pCmdline c), recover s = .internalError := by
+  obtain ⟨s, hs, ht⟩ := in_place_write_unsafe fs pCmdline c
+  exact ⟨s, hs, (recover_internal_iff s).mpr ht⟩
 
 /-- the wipe sequence of `MesonApp.__init__` (msetup.py:85-115): copy cmd_line.txt out of the tree, delete the
     tree, move the copy back -/
@@ -140,33 +164,51 @@ def wipeProtocol (backup : Path) : List (Effect Gen) :=
     user had set is lost -/
 theorem wipe_window_counterexample :
     ∃ s ∈ crashStates configured (wipeProtocol 100), recover s = .usable .fresh ∧
-      acceptable .wipe (recover s) = false := by
+      acceptable .wipe false (recover s) = false := by
+  decide
+
+/-- … and, in a directory configured with a machine file, crash points (coredata.dat gone, cmd_line.txt back in
+    place) after which the follow-up setup re-applies the -D options but not the machine file -/
+theorem wipe_machine_file_counterexample :
+    ∃ s ∈ crashStates configured (wipeProtocol 100), recover s = .usable (.cmdlineOptions .old) ∧
+      acceptable .wipe true (recover s) = false := by
+  decide
+
+/-- rotating the old `coredata.dat` away with a rename before the new one is renamed into place (instead of
+    copying it, as `coredata.save` does) opens the same hole for `configure`/`--reconfigure` -/
+def rotateByRename (c : Gen) : List (Effect Gen) :=
+  [.openW pCoredataTmp, .write pCoredataTmp, .close pCoredataTmp c,
+   .replace pCoredata pCoredataPrev, .replace pCoredataTmp pCoredata]
+
+theorem rotate_by_rename_counterexample :
+    ∃ s ∈ crashStates configured (rotateByRename .new), s pCoredata = .absent ∧
+      acceptable .configure true (recover s) = false := by
   decide
 
 /-! ### per-run obligations over the traces recorded from the real commands -/
 
-/-- the two windows in which the current code does not recover (the findings above) -/
-def excused (c : Cmd) (s : FS Gen) : Bool :=
-  (s pCmdline).isTorn ||
-  (c == .wipe && (s pCoredata).isAbsent && (s pCmdline).isAbsent)
+/-- the window in which the current code does not recover (the `--wipe` findings above) -/
+def excused (c : Cmd) (mf : Bool) (s : FS Gen) : Bool :=
+  c == .wipe && (s pCoredata).isAbsent && ((s pCmdline).isAbsent || mf)
 
 def scenarioOk (sc : Scenario) : Bool :=
-  (crashStates sc.fs0 sc.trace).all (fun s => excused sc.cmd s || acceptable sc.cmd (recover s))
+  (crashStates sc.fs0 sc.trace).all
+    (fun s => excused sc.cmd sc.machineFile s || acceptable sc.cmd sc.machineFile (recover s))
 
 /-- the property over the model, full strength: every crash point of every recorded command is recoverable
-    with old-or-new option values (false of the current code: see the two counterexamples) -/
+    with old-or-new option values (false of the current code: see the wipe counterexamples) -/
 def full_statement : Prop :=
-  ∀ sc ∈ CrashTraces.all, ∀ s ∈ crashStates sc.fs0 sc.trace, acceptable sc.cmd (recover s) = true
+  ∀ sc ∈ CrashTraces.all, ∀ s ∈ crashStates sc.fs0 sc.trace,
+    acceptable sc.cmd sc.machineFile (recover s) = true
 
-/-- every crash point of every recorded trace outside the two defect windows is recoverable, and the
-    recovered option values are the pre-command ones or the ones the command was setting -/
+/-- every crash point of every recorded trace outside the `--wipe` window is recoverable, and the recovered
+    option values are the pre-command ones or the ones the command was setting -/
 theorem all_crash_points_recoverable_partial :
     ∀ sc ∈ CrashTraces.all, ∀ s ∈ crashStates sc.fs0 sc.trace,
-      (s pCmdline ≠ .torn) →
-      ¬ (sc.cmd = .wipe ∧ s pCoredata = .absent ∧ s pCmdline = .absent) →
-      acceptable sc.cmd (recover s) = true := by
+      ¬ (sc.cmd = .wipe ∧ s pCoredata = .absent ∧ (s pCmdline = .absent ∨ sc.machineFile = true)) →
+      acceptable sc.cmd sc.machineFile (recover s) = true := by
   have key : ∀ sc ∈ CrashTraces.all, scenarioOk sc = true := by decide +kernel
-  intro sc hsc s hs h1 h2
+  intro sc hsc s hs h2
   have := key sc hsc
   simp only [scenarioOk, List.all_eq_true] at this
   have hx := this s hs
@@ -174,14 +216,21 @@ theorem all_crash_points_recoverable_partial :
   rcases hx with hx | hx
   · exfalso
     simp only [excused, Bool.or_eq_true, Bool.and_eq_true, beq_iff_eq] at hx
-    rcases hx with hx | ⟨⟨hc, ha⟩, hb⟩
-    · apply h1
-      cases h : s pCmdline <;> simp_all [FileSt.isTorn]
-    · apply h2
-      refine ⟨hc, ?_, ?_⟩
-      · cases h : s pCoredata <;> simp_all [FileSt.isAbsent]
-      · cases h : s pCmdline <;> simp_all [FileSt.isAbsent]
+    obtain ⟨⟨hc, ha⟩, hb⟩ := hx
+    apply h2
+    refine ⟨hc, ?_, ?_⟩
+    · cases h : s pCoredata <;> simp_all [FileSt.isAbsent]
+    · rcases hb with hb | hb
+      · left; cases h : s pCmdline <;> simp_all [FileSt.isAbsent]
+      · right; exact hb
   · exact hx
+
+/-- in particular: the three commands other than `--wipe` are recoverable at *every* crash point -/
+theorem non_wipe_commands_recoverable :
+    ∀ sc ∈ CrashTraces.all, sc.cmd ≠ .wipe → ∀ s ∈ crashStates sc.fs0 sc.trace,
+      acceptable sc.cmd sc.machineFile (recover s) = true := by
+  intro sc hsc hne s hs
+  exact all_crash_points_recoverable_partial sc hsc s hs (fun h => hne h.1)
 
 /-- in every recorded trace `coredata.dat` obeys the static discipline (only ever replaced by a complete file) … -/
 theorem recorded_coredata_disciplined :
@@ -197,9 +246,52 @@ theorem recorded_coredata_never_torn :
     exact (isTorn_false_iff _).mp (this sc hsc)
   exact neverTornCheck_sound pCoredata sc.fs0 sc.trace (recorded_coredata_disciplined sc hsc) h0
 
+/-- in every recorded trace `cmd_line.txt` obeys the static discipline too (since 550d77f) … -/
+theorem recorded_cmdline_disciplined :
+    ∀ sc ∈ CrashTraces.all, neverTornCheck pCmdline sc.fs0 sc.trace = true := by
+  decide +kernel
+
+/-- … hence it is never torn at any crash point of any recorded command -/
+theorem recorded_cmdline_never_torn :
+    ∀ sc ∈ CrashTraces.all, ∀ s ∈ crashStates sc.fs0 sc.trace, s pCmdline ≠ .torn := by
+  intro sc hsc
+  have h0 : sc.fs0 pCmdline ≠ .torn := by
+    have : ∀ sc ∈ CrashTraces.all, (sc.fs0 pCmdline).isTorn = false := by decide +kernel
+    exact (isTorn_false_iff _).mp (this sc hsc)
+  exact neverTornCheck_sound pCmdline sc.fs0 sc.trace (recorded_cmdline_disciplined sc hsc) h0
+
+/-- the follow-up setup never ends in a traceback or a clean error, for any recorded command, `--wipe` included -/
+theorem recorded_recovery_always_succeeds :
+    ∀ sc ∈ CrashTraces.all, ∀ s ∈ crashStates sc.fs0 sc.trace, ∃ src, recover s = .usable src := by
+  intro sc hsc s hs
+  exact recover_usable_of_not_torn s (recorded_coredata_never_torn sc hsc s hs)
+    (recorded_cmdline_never_torn sc hsc s hs)
+
+def keepsCoredata (sc : Scenario) : Bool :=
+  !(sc.cmd == .reconfigure || sc.cmd == .configure) ||
+    (alwaysPresentCheck pCoredata sc.trace && !(sc.fs0 pCoredata).isAbsent)
+
+/-- `--reconfigure` and `configure` never unlink `coredata.dat` nor rename it away, and it exists beforehand … -/
+theorem recorded_coredata_kept :
+    ∀ sc ∈ CrashTraces.all, keepsCoredata sc = true := by
+  decide +kernel
+
+/-- … hence it exists at every crash point of these two commands (a directory that was configured stays so) -/
+theorem recorded_coredata_always_present :
+    ∀ sc ∈ CrashTraces.all, (sc.cmd = .reconfigure ∨ sc.cmd = .configure) →
+      ∀ s ∈ crashStates sc.fs0 sc.trace, s pCoredata ≠ .absent := by
+  intro sc hsc hcmd
+  have hk := recorded_coredata_kept sc hsc
+  have hc : (sc.cmd == .reconfigure || sc.cmd == .configure) = true := by
+    rcases hcmd with h | h <;> simp [h]
+  simp only [keepsCoredata, hc, Bool.not_true, Bool.false_or, Bool.and_eq_true, Bool.not_eq_true'] at hk
+  have h0 : sc.fs0 pCoredata ≠ .absent := by
+    intro h; simp [h, FileSt.isAbsent] at hk
+  exact alwaysPresentCheck_sound pCoredata sc.fs0 sc.trace hk.1 h0
+
 /-! ### non-vacuity -/
 
-example : CrashTraces.all.length = 20 := by decide
+example : CrashTraces.all.length = 31 := by decide
 example : (crashStates CrashTraces.sc_configure_h2_ninja.fs0 CrashTraces.sc_configure_h2_ninja.trace).length > 10 := by
   decide +kernel
 /-- the partial theorem's hypotheses hold at some crash point where a state file is mid-update -/
@@ -207,5 +299,9 @@ example : ∃ s ∈ crashStates configured (coredataSave Gen.new),
     s pCoredataTmp = .torn ∧ s pCmdline ≠ .torn ∧ recover s = .usable (.coredata .old) := by decide
 example : neverTornCheck pCoredata configured (coredataSave Gen.new) = true := by decide
 example : neverTornCheck pCmdline configured (inPlaceWrite pCmdline Gen.new) = false := by decide
+example : neverTornCheck pCmdline configured (cmdlineSave Gen.new) = true := by decide
+example : alwaysPresentCheck pCoredata (coredataSave Gen.new) = true := by decide
+example : alwaysPresentCheck pCoredata (rotateByRename .new) = false := by decide
+example : ∃ sc ∈ CrashTraces.all, sc.machineFile = true ∧ sc.cmd = .configure := by decide
 
 end MesonModel.Props.C09
